@@ -196,6 +196,26 @@ def mk_step(enc, arch=6, sec=True, virt=False, vmsa=False, mode=None, it='any', 
                     pass
                 m.reinstall_pre()
                 m.decoded, m.executed = [], []
+            elif prehistory == 'same-iset':
+                # history before the snapshot: the same instruction bits are first executed in the SAME instruction set
+                # from a state whose flags and IT state are unrelated (fresh solver variables) to the snapshot's --
+                # state-derived decode results (set-flags from InITBlock(), the carry operand) must not be remembered
+                regs = m.arm.registers
+                val = regs.cpsr.value
+                fl = env.var('pre_nzcv', 4)
+                val = (val & ~(0xF << 28)) | (fl << 28)
+                if E.thumb:
+                    itv = env.var('pre_it', 8)
+                    IT = core.to_bv(itv, 8)
+                    env.assume(z3.Or(IT == 0, z3.Extract(3, 0, IT) != 0))
+                    val = (val & ~0x0600FC00) | ((itv & 3) << 25) | ((itv >> 2) << 10)
+                regs.cpsr.value = val
+                try:
+                    m.arm.emulate_cycle()
+                except Exception:
+                    pass
+                m.reinstall_pre()
+                m.decoded, m.executed = [], []
             try:
                 m.arm.emulate_cycle()
             except Exception as ex:
